@@ -778,6 +778,67 @@ trunc_domain(void) {
   vfs_release();
 }
 
+/* ------------------------------------------------------------------ */
+/* short reads: read(2) may legally return fewer bytes than asked for  */
+/* anywhere in a file; the records read back must not change           */
+/* ------------------------------------------------------------------ */
+
+static uint64_t n_short;
+
+static int
+run_short(int fi, int ord, long cnt, fail_t *f) {
+  rfile_t *F = &files[fi];
+  size_t drops;
+  char a[200];
+  vfs_hold(F);
+  vfs_fault_clear(cur_vfs);
+  cur_vfs->fault.sel_kind = C_READ;
+  cur_vfs->fault.sel_ord = ord;
+  cur_vfs->fault.sel_short = cnt;
+  cur_vfs->fault.sel_name[0] = 0;
+  drops = lcdb_read_log(&t_got);
+  vfs_fault_clear(cur_vfs);
+  if (drops != 0 || !reclist_equal(&t_got, &F->recs)) {
+    describe_lens(&t_got, a, sizeof(a));
+    FAIL(f, "short_read_changes_records", "file %s (%zu bytes, %zu records): when read call #%d returns only %ld bytes (no error), the reader returns %s with %zu drop reports",
+         F->name, F->bytes.n, F->recs.n, ord, cnt, a, drops);
+  }
+  return 0;
+}
+
+static void
+short_domain(void) {
+  static const long cnts[] = {1, 6, 7, 8, 4095, 12345, 32761, 32767};
+  int fi, ord, c;
+  for (fi = 0; fi < NFILES && !stopped; fi++) {
+    rfile_t *F = &files[fi];
+    int nreads = (int)(F->bytes.n / 32768) + 2;
+    vfs_release();
+    for (ord = 1; ord <= nreads && !stopped; ord++)
+      for (c = 0; c < (int)(sizeof(cnts) / sizeof(cnts[0])); c++) {
+        uint64_t idx = g_idx++;
+        fail_t f, f2;
+        char js[160];
+        if (!drv_mine(idx))
+          continue;
+        snprintf(js, sizeof(js), "{\"k\":\"short\",\"file\":%d,\"ord\":%d,\"cnt\":%ld}", fi, ord, cnts[c]);
+        drv_case("%s", js);
+        n_eval++;
+        n_short++;
+        if (run_short(fi, ord, cnts[c], &f)) {
+          if (!run_short(fi, ord, cnts[c], &f2))
+            vh_die("violation did not reproduce: %s", js);
+          drv_viol(f.sig, f.detail, js);
+        }
+        if ((n_short & 255) == 0 && drv_deadline_hit()) {
+          stopped = 1;
+          break;
+        }
+      }
+  }
+  vfs_release();
+}
+
 static void
 alt_domain(void) {
   int fi, kind;
@@ -977,6 +1038,9 @@ replay(const char *js) {
   } else if (strstr(js, "\"k\":\"trunc\"")) {
     ldb_crc32c_init();
     bad = run_trunc((int)jnum(js, "file", 0), (size_t)jnum(js, "cut", 0), &f, NULL);
+  } else if (strstr(js, "\"k\":\"short\"")) {
+    ldb_crc32c_init();
+    bad = run_short((int)jnum(js, "file", 0), (int)jnum(js, "ord", 1), jnum(js, "cnt", 1), &f);
   } else if (strstr(js, "\"k\":\"alt\"")) {
     int klass;
     ldb_crc32c_init();
@@ -1078,6 +1142,7 @@ main(int argc, char **argv) {
     if (!stopped) wo_domain();
     if (!stopped) seq_domain();
     if (!stopped) trunc_domain();
+    if (!stopped) short_domain();
     if (!stopped) alt_domain();
   }
 
@@ -1085,13 +1150,13 @@ main(int argc, char **argv) {
            "\"evaluations\":%llu,\"exhaustive\":%s,\"crc_cases\":%llu,\"writer_cases\":%llu,\"w1_cases\":%llu,"
            "\"wo_cases\":%llu,\"seq_cases\":%llu,\"reader_roundtrips\":%llu,\"truncations\":%llu,\"alterations\":%llu,"
            "\"alt_reported\":%llu,\"alt_noop\":%llu,\"alt_trailer_only\":%llu,\"alt_silent_torn_tail\":%llu,"
-           "\"alt_silent_zero_type\":%llu,\"log_bytes_compared\":%llu,\"max_crc_hw_path\":%d",
+           "\"alt_silent_zero_type\":%llu,\"log_bytes_compared\":%llu,\"short_read_cases\":%llu,\"max_crc_hw_path\":%d",
            (unsigned long long)n_eval, (stopped || drv.replay) ? "false" : "true", (unsigned long long)n_crc,
            (unsigned long long)(n_w1 + n_wo + n_seq), (unsigned long long)n_w1, (unsigned long long)n_wo,
            (unsigned long long)n_seq, (unsigned long long)n_roundtrip, (unsigned long long)n_trunc,
            (unsigned long long)n_alt, (unsigned long long)n_alt_reported, (unsigned long long)n_alt_noop,
            (unsigned long long)n_alt_trailer, (unsigned long long)n_alt_silent_eof,
-           (unsigned long long)n_alt_silent_zero, (unsigned long long)n_bytes_written, crc_accel == 1 ? 1 : 0);
+           (unsigned long long)n_alt_silent_zero, (unsigned long long)n_bytes_written, (unsigned long long)n_short, crc_accel == 1 ? 1 : 0);
   drv_result(res);
   return 0;
 }
